@@ -328,6 +328,13 @@ impl<'tx> TxInner<'tx> {
             // Grow the file, if needed
             let required_size = self.meta.num_pages * self.db.inner.pagesize;
             let current_size = file.metadata()?.len();
+            // The shared map can be shorter than the file: an earlier commit may have extended
+            // the file and then failed to map it again. Every page of this commit must be mapped.
+            let mapped_size = self.db.inner.data.lock()?.len() as u64;
+            if current_size >= required_size && mapped_size < required_size {
+                let data = self.db.inner.resize(file, current_size)?;
+                self.pages = Pages::new(data, self.db.inner.pagesize);
+            }
             if current_size < required_size {
                 verif_at!(CommitBeforeGrow, true);
                 let size_diff = required_size - current_size;
